@@ -184,3 +184,10 @@ def check(prog: Program, rep):
     rep.rule("C09.R8", "the safety optimisations both cover searches run under (fixing to 1 / >= m / 0, protection sets) conform to the frozen table (C05.R4)", floor=10)
     from rules.common import RuleProxy
     conformance(prog, RuleProxy(rep, "C09.R8"), "C05.R4", "C05")
+    rep.rule("C09.R9", "the lower-bound graph of a minimum cover search gets the model's additional starts / ends (C10.R8); the antichain network "
+             "distinguishes an empty weight function from none (C17.R6)", floor=6)
+    from rules import plumb
+    from rules.c17 import antichain_network
+    from rules.common import RuleProxy
+    plumb.stgraph_starts_rule(prog, RuleProxy(rep, "C09.R9"), "C10.R8")
+    antichain_network(prog, RuleProxy(rep, "C09.R9"), "C17.R6")
